@@ -182,6 +182,13 @@ func (w *World) ruleLocalIndexInRange(r *Report, rule string, min int) {
 						upper, how = true, "a test against "+lt.key
 						break
 					}
+					// `for j := 0; j != n; j++` over a container made with n (n >= 0, or the
+					// make would have failed): a counter that starts at 0 and steps by one
+					// is below n as long as it differs from it
+					if strings.HasPrefix(it.key, "<hv") && I != nil && !I.Empty() && I.Min().Sign() >= 0 && (is1("("+it.key+" != "+lt.key+")", 1) || is1("("+it.key+" == "+lt.key+")", 0)) {
+						upper, how = true, "counting up from 0 while different from "+lt.key
+						break
+					}
 					if L, _ := px.evalTerm(lt, st); L != nil && !L.Empty() && I != nil && !I.Empty() && L.Min().Cmp(I.Max()) > 0 {
 						upper, how = true, "the length range "+L.String()+" of "+lt.key
 						break
@@ -239,6 +246,12 @@ func (w *World) ruleLocalIndexInRange(r *Report, rule string, min int) {
 						}
 					}
 				}
+				// an instance on this path only if the path knows what the container was
+				// made with (or the access is related to its length already): a container
+				// handed in from elsewhere (parameter, capture, field) is its owner's business
+				if !upper && len(lens) < 2 {
+					return true
+				}
 				results[i].met++
 				if !lower || !upper {
 					results[i].bad++
@@ -267,7 +280,7 @@ func (w *World) ruleLocalIndexInRange(r *Report, rule string, min int) {
 			},
 			havoc: func(fr *pxFrame, lp *loopInfo) bool { return true },
 		})
-		px.maxPaths, px.maxSteps = 40000, 4000000
+		px.maxPaths, px.maxSteps = 40000, 400000
 		px.Run(fn, Env{})
 		var order []int
 		for i := range sites {
